@@ -1,130 +1,16 @@
-"""Per-property configuration of check.py: suites (name, quick count, thorough count),
-what is proved, what is modelled rather than verified."""
+"""Per-property configuration of check.py, one JSON file per property under bin/props/
+(suites = [name, quick count, thorough count]; proved_scope / not_proved; modelled; assumptions)."""
+import glob
+import json
+import os
 
 EXTERNAL = [
     "modelled, not verified: xmlparser 0.13.6 tokenizer, indextree 4.7.2 arena, encoding_rs/xhtmlchardet decoders, genawaiter, ahash (DESIGN.md section 6)",
 ]
 
-PROPS = {
-    "C01": {
-        "suites": [("entity", 3000, 60000), ("rt", 2500, 60000)],
-        "show_constants": True,
-        "proved_scope": "character level: parse_content(serialize_text s)=s and parse_content(serialize_attribute s)=s for every string; escaped output free of raw '<' / '\"' / TAB / LF / CR",
-        "not_proved": "tree level (C01_main): serializer + tokenizer contract + builder",
-        "modelled": EXTERNAL,
-        "assumptions": ["NoopNormalizer (identity) is the normalizer"],
-    },
-    "C08": {
-        "suites": [("idmap", 200, 3000)],
-        "show_constants": True,
-        "proved_scope": "generic in the id width: table invariant (by_value = graph of v -> to_id(index in by_id), by_id duplicate-free) holds of Xot::new() and is preserved by every registration; with at most 2^bits distinct values: equal ids <=> equal values (names: (local, namespace id)), get_value/get_id inverse, read-only lookups find exactly the registered values; id/value pairs persist under any further history (no bound); built-ins distinct and resolving to the standard strings (decide over builtinRegistrations); clone answers alike; the unbounded claim is refuted at every width (C08_wraps, C08_full_false) and at the extracted widths from Xot::new() (n65534 -> xml:space / empty prefix / no namespace)",
-        "not_proved": "that parse()/html5() perform exactly the get_id_mut calls the harness observes (covered by the `implicit` correspondence requests, not by a parser model); consequences for trees (names compare equal across trees iff expanded names equal) are the table statement plus the tree layers of C01/C09",
-        "modelled": EXTERNAL + ["ahash HashMap as a finite map (get = first match of an association list, insert = cons)"],
-        "assumptions": ["derived Clone of Vec/HashMap/String yields equal values (extractor checks the derives)",
-                        "release profile: `index as u16` truncates silently (it does in every profile)"],
-    },
-    "C14": {
-        "suites": [("entity", 3000, 60000), ("ser", 1200, 6000)],
-        "show_constants": True,
-        "proved_scope": "character level: CDATA sections of serialize_cdata concatenate to the input and contain no ]]>; unescaped_gt text decodes to the input and contains no ]]>. Pretty (all trees, all start nodes, all parameter sets, arbitrary escaping functions): erasing the indentation / newline fields of the pretty token stream gives the plain token stream; the pretty string is the plain tokens plus per token 2*indentation spaces in front and at most one LF behind (C14_pretty_content, _conv, C14_pretty_string). Placement, stack level (all stacks): newline only outside mixed / suppressed content and outside xml:space=preserve scope, no whitespace inside mixed / suppressed content at any depth, what StartTagClose pushes (C14_pretty_where_newline, _mixed, _entry); inside a preserve scope the indentation is frozen at the depth of the preserve element (C14_pretty_where_frozen), zero only when that element is outermost (C14_pretty_where_partial); the full-strength rule is refuted by a closed witness (C14_pretty_where_false). Placement, tree level (all trees): the Pretty stack before every event is exactly the entries of the open elements between start node and the event's node, so every token's indentation / newline is prettify on that explicit function of the tree (C14_pretty_where_tree); a token receives indentation or a newline only if no open element strictly above it has a text child or is in the suppress list (C14_pretty_where_tree_mixed, full strength). Doctype: the rule 'doctype name = name in the root start tag' is refuted by a closed witness (C14_doctype_false)",
-        "not_proved": "C14_options (reparse of the output under every parameter set = C01_main, needs the tokenizer contract and the builder) and C14_decl (prolog well-formedness): by the harness oracles only (prolog grammar check, reparse + whitespace diff); a tree-level reading of the preserve rule beyond C14_pretty_where_tree + the stack-level theorems is not stated separately",
-        "modelled": EXTERNAL,
-        "assumptions": ["NoopNormalizer (identity) is the normalizer"],
-    },
-    "C13": {
-        "suites": [("cmp", 900, 12000)],
-        "proved_scope": (
-            "for ALL trees, filters and text comparisons: advanced_deep_equal on two normal nodes = structural equality of the "
-            "filtered forests (C13_advanced; Rust zip semantics included), and = the direct value comparison as soon as one node is "
-            "an attribute / namespace node (C13_advanced_abnormal). For structurally valid trees (children ordered "
-            "namespace/attribute/normal, unique attribute names per node, attribute/namespace nodes are leaves) and EVERY node "
-            "kind, attribute and namespace nodes included: deep_equal a b <-> canon a = canon b (C13_iff; C13_attribute_nodes, "
-            "C13_namespace_nodes), hence reflexive / symmetric / transitive for every node kind; insensitive to namespace nodes "
-            "anywhere (declarations, prefixes: C13_ignores_declarations, C13_ignores_prefix) and to the attribute order of the "
-            "compared node (C13_ignores_attribute_order; deeper levels via canon, which sorts attributes); with any text comparison "
-            "the canonical forms are related up to cmp (C13_advanced_all, every node kind); deep_equal_xpath on element/element and "
-            "document/document = Canon.rel cmp of the canonical forms with everything but elements and text discarded, otherwise "
-            "CValue.rel cmp of the two nodes (C13_xpath, C13_xpath_other); deep_equal_children <-> equal canonical child sequences "
-            "(C13_children); shallow_equal <-> equal canonical values, for every node kind (C13_shallow); "
-            "shallow_equal_ignore_attributes <-> equal canonical values with the listed names removed, for EVERY ignore list, "
-            "repeated and absent names included (C13_shallow_ignore); string_value of document/element = concatenated text of the "
-            "canonical form, other nodes their own content (C13_string_value, C13_string_value_other)."
-        ),
-        "not_proved": (
-            "no statement about structurally invalid trees beyond C13_advanced / C13_advanced_abnormal (ill-ordered children, "
-            "duplicate attribute names, children under attribute/namespace nodes); attribute-order insensitivity below the compared "
-            "node is only available through C13_iff + the definition of canon, not as a separate theorem; deep_equal_xpath(==) a b = "
-            "deep_equal of the trees with comments/PIs removed is not derived (needs validity of the stripped tree), C13_xpath states "
-            "the relation on canonical forms instead; Canon.rel compares attribute maps by size + lookup (finite-map relation), its "
-            "equivalence with a position-wise comparison of the sorted lists is not proved; equivalence-relation laws for custom text "
-            "comparisons are not claimed (they depend on cmp); text_content / text_content_str are modelled and in the "
-            "correspondence suite but have no theorem; name id <-> expanded name is C08"
-        ),
-        "modelled": EXTERNAL,
-        "assumptions": [
-            "a name id stands for its expanded name (local name, namespace URI): interning is one-to-one (C08)",
-            "harness built with overflow-checks = false: the usize counter of shallow_equal_ignore_attributes wraps modulo 2^64",
-            "text comparisons and filters are pure total functions of their arguments (filter of the node's own subtree)",
-            "the first node's attribute list has fewer than 2^64 entries (hypothesis of C13_shallow, C13_shallow_ignore)",
-        ],
-    },
-    "C04": {
-        "suites": [("forest", 300, 6000)],
-        "proved_scope": "invariant Forest.inv defined (decidable); proved: holds initially, preserved by set_text_consolidation; value updates never create, lose or reorder a handle. The invariant is additionally evaluated on the model state after every step of every correspondence history and compared with an independent validator on the real forest",
-        "not_proved": "preservation of Forest.inv by each moving / creating / removing operation (C04_step), hence C04_reach by induction; monotonicity of is_removed (holds in the model by construction of fresh handles, not yet stated as a theorem)",
-        "modelled": EXTERNAL + ["handles are creation-order numbers; indextree slot reuse and the 15-bit stamp are below the model"],
-        "assumptions": ["arguments are live handles"],
-    },
-    "C06": {
-        "suites": [("forest", 300, 6000)],
-        "proved_scope": "every refusal produced by the argument checks (structure check, sibling reference check, replace / element_wrap / element_unwrap pre-checks) returns the forest unchanged; same-position append is the identity",
-        "not_proved": "that no error can arise after the checks (late NodeError unreachable under the invariant) and absence of panics under the invariant",
-        "modelled": EXTERNAL,
-        "assumptions": ["arguments are live handles"],
-    },
-    "C11": {
-        "suites": [("forest", 300, 6000)],
-        "proved_scope": "updating an existing key keeps every node and handle in place; removing an absent key is the identity; element-only accessors panic without change on non-elements. Agreement of the read-only and the mutable view is checked on the implementation after every step (both Rust copies against the model's single definition)",
-        "not_proved": "refinement of insert/remove/clear/insert_node to an insertion-ordered association list (C11_refine) and C11_order",
-        "modelled": EXTERNAL,
-        "assumptions": ["arguments are live handles"],
-    },
-    "C07": {
-        "suites": [("axes", 150, 400)],
-        "proved_scope": (
-            "all trees, all nodes, unbounded (Tree x Path): document order = lexicographic order on index paths; "
-            "partition law (ancestors, self, descendants, preceding, following = the normal nodes, each once; also for attribute/namespace start nodes) with "
-            "descendants/following in document order and ancestors/preceding in reverse; every machine equals its document-order specification: "
-            "Following (following, all_following; fuel = node count adequate), ReversePreorder (both variants), preceding, descendants, "
-            "NodeEdge::next/previous walks = traverse/reverse_traverse with continuation, level_order = levels with End markers (fuel adequate), "
-            "children/first_child/last_child, following_/preceding_siblings and sibling axes for every category, next_/previous_sibling, child_index, "
-            "reverse_children (= children reversed, fuel adequate), axis() for all 12 values, root, document_element, top_element (total: never panics; value in each case), attribute_nodes; "
-            "plain variants yield normal nodes only; all_* variants = node, namespaces, attributes, children"
-        ),
-        "not_proved": (
-            "indextree's iterators (children, ancestors, descendants, traverse, reverse_traverse, following_/preceding_siblings) are modelled by contract, "
-            "not verified (reverse_children no longer relies on Children::next_back, whose indextree 4.7.2 code is defective: fixed in 7fee193); traverse/all_traverse are therefore specifications "
-            "(tied to the machines by C07_edges_* and C07_traverse_starts), not verified code; theorems needing the structural hypotheses `wf` "
-            "(non-normal nodes are leaves, no normal child before a non-normal one) / `kidsSorted` (ns, attr, normal) say nothing about ill-ordered trees "
-            "(C04 is to show the API cannot build them); behaviour at invalid paths (stale handles) is not covered"
-        ),
-        "modelled": EXTERNAL,
-        "assumptions": [
-            "tree hypotheses of the theorems: wf (every tree the public API builds; property C04), Valid path",
-            "genawaiter generator in level_order = the plain loop it wraps",
-        ],
-    "C16": {
-        "suites": [("ser", 1200, 6000)],
-        "proved_scope": "for every tree, start node and parameter set, for arbitrary escaping functions: concatenated tokens (space-prefixed when flagged) = string serialisation, both directions, and tokens panics exactly when the string entry point returns an error (C16_tokens, _conv, _fail); pretty tokens with indentation/newline applied = pretty string (C16_pretty, _conv); serialize_xml_write writes exactly what serialize_xml_string returns and they fail together, Xot::write / to_string are the default-parameter instances (C16_write, _write_default, _to_string); event stream: per element exactly start-tag-open, inherited declarations (top element only, = in-scope bindings it does not declare), own declarations and attributes in view order, start-tag-close, children in order, end-tag (C16_events_element, _inherited, _children), one event per text/comment/PI and none for document/attribute/namespace nodes (C16_events_leaf), every event tagged with a normal node of the subtree and one of that node's own events (C16_events_tagged), opening events = normal non-document nodes in pre-order (C16_events_order)",
-        "not_proved": "nothing of the property statement inside the model; the Write entry point is modelled as a byte accumulator (io::Error of the writer is outside the model: Vec<u8> never fails)",
-        "modelled": EXTERNAL,
-        "assumptions": ["NoopNormalizer (identity) is the normalizer", "the std::io::Write target does not fail"],
-    },
-    "C10": {
-        "suites": [("ser", 1200, 6000)],
-        "proved_scope": "first sentence of the property, for every tree whose elements declare no prefix twice, every start node, every parameter set, arbitrary escaping functions: (1) FullnameSerializer level: the top frame of the stack is the nearest-declaration-wins scope of the declaration frames pushed (C10_stack_invariant; kept by push, undone by pop: C10_stack_push, _pop; base case because namespaces_in_scope yields each prefix once: C10_stack_base, _base_inScope); the prefix element_prefix / attribute_prefix choose, looked up by XML-Namespaces rules in the scope of the same declarations, gives back the name's namespace (C10_sound_attribute full strength; C10_sound_partial for elements under the guard 'not (no-namespace name while a default namespace is in scope)'; the unguarded statement is refuted by a closed witness: C10_sound_false); an error is returned exactly when no usable prefix is in scope (C10_error_element, _attribute). (2) the serialisation run: before every event of gen_outputs the stack stands for the declaration lists of the open elements between the start node and the event's node on top of namespaces_in_scope(start) (C10_stack_traversal: push at StartTagOpen, pop at EndTag, balanced over every subtree), hence every start-tag, end-tag and attribute name the run renders resolves in those declarations to the node's expanded name (C10_sound_tree_partial, _endtag_partial with the same guard; C10_sound_tree_attribute full strength)",
-        "not_proved": "the theorems resolve names in the declarations of the tree (the Prefix events, C16_events_element), not in the bytes: that a declaration of the XML namespace under another prefix is not written (render_output suppresses it: defect C10:prefix-bound-to-xml-namespace-written-without-declaration) and that URIs are written unescaped (defect C10:namespace-uri-written-unescaped) are outside the theorems and are found by the suite's independent resolver / reparse oracle; a string-level resolver (parsing qnames back out of the token text) is not modelled; C10_repair / C10_iter (create_missing_prefixes) belong to the scope / edit suites",
-        "modelled": EXTERNAL,
-        "assumptions": ["no prefix is declared twice on one element (NodeMap keys are unique: C11)"],
-    },
-}
+PROPS = {}
+for _path in sorted(glob.glob(os.path.join(os.path.dirname(os.path.abspath(__file__)), "props", "C*.json"))):
+    with open(_path, encoding="utf-8") as _f:
+        _cfg = json.load(_f)
+    _cfg["suites"] = [tuple(s) for s in _cfg["suites"]]
+    PROPS[os.path.basename(_path)[:-5]] = _cfg
